@@ -768,6 +768,23 @@ func runStrScenario(sc strScenario) *strResult {
 				ok = false
 				break
 			}
+			// a handler parked in ReadMessage while frames are about to arrive back to back with the
+			// end: whether it wakes with the message or with the end is a race of the real scheduler
+			// (both are allowed: the connection is ending); the script does not go there
+			e.mu.Lock()
+			racy := false
+			if len(e.c2s) > 0 {
+				for _, t := range e.ss {
+					if t.e.waiting {
+						racy = true
+					}
+				}
+			}
+			e.mu.Unlock()
+			if racy {
+				ok = false
+				break
+			}
 			e.mu.Lock()
 			e.cut = true
 			frames := e.c2s
